@@ -10,6 +10,7 @@
     operation traces of real renders validated by TLC (C->S).
 (c) reserved names are rejected at compile time, at the name's token.
 """
+from harness import REPO_SRC  # noqa: E402
 import random
 
 from .. import families as F
@@ -45,7 +46,7 @@ def run(ctx):
 def reserved(ctx):
     """names reserved by the compiler are rejected at compile time, at the token"""
     import sys
-    sys.path.insert(0, "/repo/src")
+    sys.path.insert(0, REPO_SRC)
     from chameleon import PageTemplate
     from chameleon.exc import TemplateError
     n = 0
